@@ -245,7 +245,7 @@ subroutine induct(a, b, n)
     a(l) = a(l) + 1.0
   end do
 end subroutine induct
-""")
+""", tiers=("thorough",))
 
 _seed("chunk", """
 subroutine chunk(a, n, s)
@@ -275,7 +275,7 @@ subroutine chunk(a, n, s)
     a(i) = 4.0
   end do
 end subroutine chunk
-""")
+""", tiers=("thorough",))
 
 _seed("program", """
 program prog
@@ -609,7 +609,8 @@ def _psy(name, api, alg, dm, tiers=("quick", "thorough"), pre=()):
                  "pre": list(pre)}
 
 
-_psy("lf_single_dm", "dynamo0.3", "dynamo0p3/1_single_invoke.f90", True)
+_psy("lf_single_dm", "dynamo0.3", "dynamo0p3/1_single_invoke.f90", True,
+     tiers=("thorough",))
 _psy("lf_single", "dynamo0.3", "dynamo0p3/1_single_invoke.f90", False)
 _psy("lf_multikern_dm", "dynamo0.3", "dynamo0p3/4_multikernel_invokes.f90",
      True,
@@ -623,7 +624,8 @@ _psy("lf_quad_dm", "dynamo0.3", "dynamo0p3/1.1.0_single_invoke_xyoz_qr.f90",
      True,
      tiers=("thorough",))
 _psy("lf_quad_face", "dynamo0.3",
-     "dynamo0p3/1.1.6_face_qr.f90", False)
+     "dynamo0p3/1.1.6_face_qr.f90", False,
+     tiers=("thorough",))
 _psy("lf_2qr_int", "dynamo0.3",
      "dynamo0p3/1.1.9_single_invoke_2qr_shapes_int_field.f90", False)
 _psy("lf_stencil_dm", "dynamo0.3", "dynamo0p3/19.1_single_stencil.f90", True,
@@ -639,7 +641,8 @@ _psy("lf_kmi_clash", "dynamo0.3", "dynamo0p3/4_multikernel_invokes.f90",
           {"number_of_layers": 20}),
      ])
 _psy("lf_coloured", "dynamo0.3", "dynamo0p3/1_single_invoke.f90", False,
-     pre=[("Dynamo0p3ColourTrans", {}, {"t": "node", "p": [0, 0]}, {})])
+     pre=[("Dynamo0p3ColourTrans", {}, {"t": "node", "p": [0, 0]}, {})],
+     tiers=("thorough",))
 _psy("lf_omp_region", "dynamo0.3", "dynamo0p3/1_single_invoke.f90", False,
      pre=[("OMPParallelTrans", {},
            {"t": "list", "p": [0], "i": 0, "j": 1}, {})])
